@@ -375,6 +375,9 @@ def generate(seed: int, tier: str) -> dict:
         else:
             op = {"op": "set", "path": rng.choice(gen.NAMES), "value": og.fresh_value()} if rng.random() < 0.6 else {"op": "rm", "path": rng.choice(gen.NAMES)}
         cmd = ["set", op["path"], op["value"]] if op["op"] == "set" else ["rm", op["path"]]
+        if any("\x00" in a for a in cmd):
+            # (the model's internal marker for dynamic attribute names `${a} = …;`; a command line cannot carry a NUL)
+            cmd = ["set", "zz9", "1"] if op["op"] == "set" else ["rm", "zz9"]
     data = text.encode("utf-8")
     nchunks = rng.choice([0, 0, 1, 2, 3])
     if nchunks == 0:
